@@ -48,6 +48,22 @@ whose net effect on one variable is the trusted meaning (e.g. "read an HDF5 grou
 the run assigns is UNBOUND afterwards (a later read is refused), every non-hole name the run reads and does not itself
 assign must be bound where the run stands (or be listed in cfg["globals"]), and a changed statement no longer matches,
 so the run then meets the ordinary translation and is refused if outside the fragment.
+Additions for scoring/main.py (select_next_plate, score_chunk, ChunkedScoresHolder):
+  `dict T`            a dict with integer keys and values of type T (insertion-ordered association list `list (Z * T)`):
+                      `{}`, `d[k] = v` (dict_set: an existing key keeps its place, its value is replaced),
+                      `{k(x): v(x) for x in L}` (left fold of dict_set over L; neither k nor v may raise)
+  `x: T = e`          an annotated assignment is the assignment (the annotation is not read)
+  `if x is None: x = e`   with x bound at type `opt T` and DECLARED in cfg["vars"] at type T (the default-argument idiom):
+                      afterwards x has type T, `match x with Some v => v | None => e end`; e must not raise
+  if/else             a variable assigned by a plain `x = e` at the top level of BOTH branches is bound after the `if`
+                      even when it was not bound before it
+  `a in c`, c : opt   membership in a container that may be None is a checked unwrap (TypeError on None = Err 99)
+  `if c`, c : opt (list T)   truthiness of an optional list: false for None and for [] (opt_list_truthy)
+  [.. for x in L if P]  where P may raise (a single `if` that is not an and/or): res_filter, P evaluated element by
+                      element from the left, the first exception aborts; the element expression still must not raise
+  `a[i] = v`, a : list   with cfg["index_error"] = tag: list_set, IndexError (Err tag) when i is outside -len..len-1
+  cfg["coerce"]       [(from type, to type, template over {x})]: an upcast applied where the `to` type is needed
+                      (subclass used as its base class), also pointwise under `list` and `dict`
 """
 import ast
 
@@ -67,6 +83,8 @@ def parse_type(s):
         return ("tuple", tuple(parse_type(x) for x in split_top(s[1:-1], "*")))
     if s == "dict":
         return ("dict",)
+    if s.startswith("dict "):
+        return ("dictof", parse_type(s[5:]))
     if s == "set":
         return ("set",)
     return (s,)
@@ -97,6 +115,8 @@ def coq_type(t):
         return "(%s)" % " * ".join(coq_type(x) for x in t[1])
     if t[0] == "dict":
         return "(list (Z * Z))"
+    if t[0] == "dictof":
+        return "(list (Z * %s))" % coq_type(t[1])
     if t[0] == "set":
         return "(list Z)"
     return t[0]
@@ -136,6 +156,7 @@ class Tr:
         self.eqb = cfg.get("eqb", {})
         # object attributes: {attr: (owner type, field type, getter template, setter template)}
         self.fields = {a: (parse_type(o), parse_type(t), g, st) for a, (o, t, g, st) in cfg.get("fields", {}).items()}
+        self.coerce = {(parse_type(a), parse_type(b)): t for a, b, t in cfg.get("coerce", [])}
         self.raises = list(cfg.get("raises", []))  # [(substring of unparse(raise stmt), tag)]
         self.fresh = 0
         self.ret_type = parse_type(cfg["returns"])
@@ -239,6 +260,27 @@ class Tr:
                 return "[]", EMPTY_T
             parts = [self.expr(x, env, hoist) for x in e.elts]
             return "[" + "; ".join(p[0] for p in parts) + "]", ("list", parts[0][1])
+        if isinstance(e, ast.Dict) and not e.keys:
+            return "[]", EMPTY_T
+        if isinstance(e, ast.DictComp):
+            # {k(x): v(x) for x in L}  ->  fold_left (fun d x => dict_set d k v) L []; neither k nor v may raise
+            if len(e.generators) != 1 or e.generators[0].is_async or e.generators[0].ifs \
+                    or not isinstance(e.generators[0].target, ast.Name):
+                raise Unsupported("dict comprehension other than {k(x): v(x) for x in L}: " + ast.unparse(e))
+            g = e.generators[0]
+            l, lt = self.expr(g.iter, env, hoist)
+            if lt[0] != "list":
+                raise Unsupported("dict comprehension over a %s" % (lt,))
+            env2 = dict(env)
+            env2[g.target.id] = lt[1]
+            inner = []
+            kk, kt = self.expr(e.key, env2, inner)
+            kk = self.need(kk, kt, ("Z",), inner)
+            vv, vt = self.expr(e.value, env2, inner)
+            if inner:
+                raise Unsupported("dict comprehension key / value that may raise: " + ast.unparse(e))
+            d = self.new("d")
+            return "(fold_left (fun %s %s => dict_set %s %s %s) %s [])" % (d, g.target.id, d, kk, vv, l), ("dictof", vt)
         if isinstance(e, ast.ListComp):
             # [f(x) for x in L if P]  ->  map (fun x => f) (filter (fun x => P) L); neither f nor P may raise
             if len(e.generators) != 1 or e.generators[0].is_async or not isinstance(e.generators[0].target, ast.Name):
@@ -252,6 +294,12 @@ class Tr:
             env2[x] = lt[1]
             inner = []
             conds = [self.cond(c, env2, inner) for c in g.ifs]
+            if inner and len(g.ifs) == 1 and not isinstance(g.ifs[0], ast.BoolOp) and self.M["type"] == "result":
+                # a condition that may raise: evaluated element by element from the left (Lib/PyRt.res_filter)
+                n = self.new("l")
+                body = "".join("dor %s <- %s; " % nt for nt in inner) + "Ok " + conds[0]
+                hoist.append((n, "res_filter (fun %s => %s) %s" % (x, body, l)))
+                l, conds, inner = n, [], []
             src = "(filter (fun %s => %s) %s)" % (x, " && ".join(conds), l) if conds else l
             if isinstance(e.elt, ast.Name) and e.elt.id == x:
                 out = src, lt
@@ -304,17 +352,38 @@ class Tr:
             return "[]"
         if want in (("dict",), ("set",)) and have == EMPTY_T:
             return "[]"
+        if want[0] == "dictof" and have == EMPTY_T:
+            return "[]"
+        if {have, want} == {("dict",), ("dictof", ("Z",))}:
+            return term
+        co = self.coercion(have, want)
+        if co is not None:
+            return co(term)
         if have[0] == "opt" and have[1] == want:
             n = self.new("u")
             hoist.append((n, "%s %s" % (self.M["unwrap"], term)))
             return n
         raise Unsupported("type mismatch: %s has type %s, needed %s" % (term, have, want))
 
+    def coercion(self, have, want):
+        """cfg["coerce"]: an upcast have -> want (a function on terms), also pointwise under list / dict; None if there is none"""
+        if (have, want) in self.coerce:
+            return lambda term: "(" + self.coerce[(have, want)].format(x=term) + ")"
+        if have[0] == want[0] and have[0] in ("list", "dictof") and len(have) == 2 and len(want) == 2:
+            inner = self.coercion(have[1], want[1])
+            if inner is not None and have[0] == "list":
+                return lambda term: "(map (fun c__ => %s) %s)" % (inner("c__"), term)
+            if inner is not None:
+                return lambda term: "(map (fun kv__ => (fst kv__, %s)) %s)" % (inner("(snd kv__)"), term)
+        return None
+
     def cond(self, e, env, hoist):
         """a Python truth test"""
         v, t = self.expr(e, env, hoist)
         if t == ("bool",):
             return v
+        if t[0] == "opt" and t[1][0] == "list":
+            return "(opt_list_truthy %s)" % v
         if t[0] == "list":
             return "(negb (is_nil %s))" % v
         if t[0] == "opt":
@@ -333,6 +402,8 @@ class Tr:
             x, xt = self.expr(le, env, hoist)
             c, ct = self.expr(re, env, hoist)
             x = self.need(x, xt, ("Z",), hoist)
+            if ct[0] == "opt":     # `a in None` is a TypeError
+                c, ct = self.need(c, ct, ct[1], hoist), ct[1]
             if ct == ("dict",):
                 r = "(dict_mem %s %s)" % (x, c)
             elif ct == ("set",) or ct == ("list", ("Z",)):
@@ -393,8 +464,13 @@ class Tr:
                             add(n.id)
                         else:
                             raise Unsupported("assignment target: " + ast.unparse(st))
+                    if isinstance(t, ast.Subscript) and isinstance(t.value, ast.Name):
+                        add(t.value.id)        # d[k] = v
+                        continue
                     if not isinstance(t, (ast.Name, ast.Tuple)):
                         raise Unsupported("assignment target: " + ast.unparse(st))
+            elif isinstance(st, ast.AnnAssign) and isinstance(st.target, ast.Name) and st.value is not None:
+                add(st.target.id)
             elif isinstance(st, ast.AugAssign):
                 if isinstance(st.target, ast.Name):
                     add(st.target.id)
@@ -501,10 +577,29 @@ class Tr:
         if self.is_ignored(st):
             return self.block(rest, env, k, ind)
         hoist = []
+        if isinstance(st, ast.AnnAssign) and isinstance(st.target, ast.Name) and st.value is not None and st.simple:
+            st = ast.Assign(targets=[st.target], value=st.value)      # `x: T = e` is `x = e`
         if isinstance(st, ast.Assign):
             if len(st.targets) != 1:
                 raise Unsupported("multiple assignment: " + ast.unparse(st))
             tgt = st.targets[0]
+            if isinstance(tgt, ast.Subscript) and isinstance(tgt.value, ast.Name):      # d[k] = v on a `dict T`
+                d = tgt.value.id
+                dt = env.get(d)
+                if dt is not None and dt[0] == "list" and self.cfg.get("index_error") is not None and self.M["type"] == "result":
+                    # a[i] = v on a list / numpy array: IndexError (tag cfg["index_error"]) outside -len..len-1
+                    ii, it = self.expr(tgt.slice, env, hoist)
+                    vv, vt = self.expr(st.value, env, hoist)
+                    txt = "%sdor %s <- list_set (%d) %s %s %s;\n" % (ind, d, self.cfg["index_error"], d, self.need(ii, it, ("Z",), hoist),
+                                                                     self.need(vv, vt, dt[1], hoist))
+                    return self.bind_hoist(hoist, txt, ind) + self.block(rest, env, k, ind)
+                if dt is None or dt[0] not in ("dict", "dictof"):
+                    raise Unsupported("subscript assignment: " + ast.unparse(st))
+                kk, kt = self.expr(tgt.slice, env, hoist)
+                vv, vt = self.expr(st.value, env, hoist)
+                term = "(dict_set %s %s %s)" % (d, self.need(kk, kt, ("Z",), hoist),
+                                                self.need(vv, vt, dt[1] if dt[0] == "dictof" else ("Z",), hoist))
+                return self.bind_hoist(hoist, "%slet %s := %s in\n" % (ind, d, term), ind) + self.block(rest, env, k, ind)
             for patn, var, st_t, val_t, vty in self.effect_calls:
                 binds = {}
                 if isinstance(tgt, ast.Name) and self.unify(patn, st.value, binds):
@@ -585,6 +680,17 @@ class Tr:
             v, vt = self.expr(st.value, env, hoist)
             v = self.need_ret(v, vt, st.value, env, hoist)
             return self.bind_hoist(hoist, k(env, jump=("return", v)), ind)
+        if isinstance(st, ast.If) and self.default_idiom(st, env) is not None:
+            # if x is None: x = e   with x : opt T bound and declared at type T  ->  x : T afterwards
+            x, ty = self.default_idiom(st, env)
+            v, vt = self.expr(st.body[0].value, env, hoist)
+            v = self.need(v, vt, ty, hoist)
+            if hoist:
+                raise Unsupported("default value that may raise: " + ast.unparse(st.body[0]))
+            env2 = dict(env)
+            env2[x] = ty
+            return "%slet %s : %s := match %s with Some v__ => v__ | None => %s end in\n" % (ind, x, coq_type(ty), x, v) \
+                + self.block(rest, env2, k, ind)
         if isinstance(st, ast.If):
             c = self.cond(st.test, env, hoist)
             bj, oj = self.always_jumps(st.body), self.always_jumps(st.orelse)
@@ -597,12 +703,16 @@ class Tr:
                 raise Unsupported("an if with a branch that may, but need not, continue/return: " + ast.unparse(st.test))
             allv = self.assigned(st.body + st.orelse)
             vs = [v for v in allv if v in env and env[v] != ("unit",)]
+            both = [v for v in allv if v not in vs and v in self.plainly_assigned(st.body) and v in self.plainly_assigned(st.orelse)]
+            vs = [v for v in allv if v in vs or v in both]     # assigned on both paths: bound afterwards
             dropped = [v for v in allv if v not in vs]
             ret = lambda env2, jump=None: "%s    %s %s\n" % (ind, self.M["ok"], tuple_term(vs)) if jump is None else self.unsupported("jump in if")
             tb = self.block(st.body, env, ret, ind + "    ")
             te = self.block(st.orelse, env, ret, ind + "    ")
             txt = "%s%s %s <- (if %s then\n%s%s  else\n%s%s  );\n" % (ind, self.M["bind"], tuple_pat(vs), c, tb, ind, te, ind)
             env_after = dict(env)
+            for v in both:
+                env_after[v] = self.var_type(v)
             for v in dropped:
                 txt += "%slet %s := tt in\n" % (ind, v)   # poison: a later read is a type error
                 env_after[v] = ("unit",)
@@ -693,6 +803,30 @@ class Tr:
             v = self.need(v, vt, fty, hoist)
         txt = "%slet %s : %s := %s in\n" % (ind, x, coq_type(owner), setter.format(obj=x, val=v))
         return self.bind_hoist(hoist, txt, ind) + self.block(rest, env, k, ind)
+    def default_idiom(self, st, env):
+        """(x, T) if [st] is `if x is None: x = e` with x bound at type opt T and declared in cfg["vars"] at type T"""
+        t = st.test
+        if st.orelse or len(st.body) != 1 or not isinstance(st.body[0], ast.Assign) or len(st.body[0].targets) != 1:
+            return None
+        tgt = st.body[0].targets[0]
+        if not (isinstance(t, ast.Compare) and len(t.ops) == 1 and isinstance(t.ops[0], ast.Is) and isinstance(t.left, ast.Name)
+                and isinstance(t.comparators[0], ast.Constant) and t.comparators[0].value is None
+                and isinstance(tgt, ast.Name) and tgt.id == t.left.id):
+            return None
+        x = tgt.id
+        if x in env and env[x][0] == "opt" and self.vars.get(x) == env[x][1]:
+            return x, env[x][1]
+        return None
+
+    def plainly_assigned(self, stmts):
+        """names assigned by a plain `x = e` / `x: T = e` statement at the top level of [stmts] (assigned on every path through them)"""
+        out = []
+        for st in stmts:
+            if isinstance(st, ast.Assign) and len(st.targets) == 1 and isinstance(st.targets[0], ast.Name):
+                out.append(st.targets[0].id)
+            if isinstance(st, ast.AnnAssign) and isinstance(st.target, ast.Name) and st.value is not None:
+                out.append(st.target.id)
+        return out
 
     def match_to_if(self, st):
         """match <subject>: case C1(): ... case C2(): ... case other: ...   ->   if/elif/else on the class tests
